@@ -6,12 +6,18 @@ spec: Calendar.tla, Accounts.tla, Strings.tla, Numeric.tla (operators transcribe
 legs: MC   TLC checks the laws of the statement on the model: MC_Calendar (every date of 1900..2100, all units,
            strides, origins; quick strides through the range), MC_Accounts, MC_Strings, MC_Numeric;
            MC_Calendar_walk: date_bin as the code computes it (walk from the origin) satisfies the same laws;
-           non-vacuity: MC_Calendar_shipped (the walk before repair 5c4d63a, `n >= source`) must violate BinInv
+           MC_Accounts also renames every account into other type tables (the five root names are ledger options)
+           and checks the laws and possign as the code computes it there;
+           non-vacuity: MC_Calendar_shipped (the walk before repair 5c4d63a, `n >= source`) must violate BinInv,
+           MC_Accounts_default_types (possign consulting the built-in names, not the ledger's) must violate MechInv
       S2C  Gen_C18 emits spec-derived boundary cases with the value the spec demands; every case is evaluated
            THROUGH BQL (SELECT f(consts, x0, ..) FROM #cases over a harness table, one query per job) and compared
       C2S  the recorder evaluates every function form through BQL over exhaustive harness tables (all dates of
            1900..2100, all account names, all short strings x index arguments, decimals, cast inputs, plus
            seeded random longer inputs), writes ndjson batches, and Trace_C18 judges every row inside TLC
+      S2C and C2S evaluate account_sortkey / possign (decimal, amount, position, inventory; account from a column or a
+           literal) also on connections whose ledger options rename the root types (the "_t" forms: the type table is
+           the constant part of the case), several such connections open side by side in one process
 
 The oracle is always ScalarLib!Apply evaluated by TLC; Python only builds tables / statements, projects result
 cells into the spec's vocabulary and compares for equality.
@@ -66,10 +72,36 @@ def obj_of(t):
     raise ValueError(t)
 
 
+CURRENCY = 'USD'
+
+
+def amt_of(nd):
+    from beancount.core import amount
+    return amount.Amount(dec_of(nd), CURRENCY)
+
+
+def pos_of(nd):
+    from beancount.core import position
+    return position.Position(amt_of(nd), None)
+
+
+def inv_of(nd):
+    from beancount.core import inventory
+    return inventory.Inventory([pos_of(nd)])
+
+
 DECODE = {'date': datetime.date.fromordinal, 'int': int, 'str': str, 'dec': dec_of, 'pat': pat_text,
-          'set': set, 'bool': bool, 'obj': obj_of, 'decx': obj_of}
+          'set': set, 'bool': bool, 'obj': obj_of, 'decx': obj_of, 'amt': amt_of, 'pos': pos_of, 'inv': inv_of}
 DTYPE = {'date': 'date', 'int': 'int', 'str': 'str', 'dec': 'Decimal', 'pat': 'str', 'set': 'set', 'bool': 'bool',
          'obj': 'object', 'decx': 'Decimal'}
+
+
+def dtype_of(kind):
+    """column datatype of a cell kind (a name known to harness.tables or the class itself)"""
+    if kind in DTYPE:
+        return DTYPE[kind]
+    from beancount.core import amount, inventory, position
+    return {'amt': amount.Amount, 'pos': position.Position, 'inv': inventory.Inventory}[kind]
 
 
 def proj(x):
@@ -151,6 +183,13 @@ FORMS = {
     'leaf': (['str'], 'leaf(x0)', 's'),
     'account_sortkey': (['str'], 'account_sortkey(x0)', 's'),
     'possign': (['dec', 'str'], 'possign(x0, x1)', 'q'),
+    # the same on a connection to a ledger whose options name the five root types c[0..4] (TYPED forms)
+    'account_sortkey_t': (['str'], 'account_sortkey(x0)', 's'),
+    'possign_t': (['dec', 'str'], 'possign(x0, x1)', 'q'),
+    'possign_tk': (['dec'], lambda c: 'possign(x0, %s)' % qs(c[5]), 'q'),
+    'possign_amt': (['amt', 'str'], 'number(possign(x0, x1))', 'q'),
+    'possign_pos': (['pos', 'str'], 'number(units(possign(x0, x1)))', 'q'),
+    'possign_inv': (['inv', 'str'], 'number(only(%s, possign(x0, x1)))' % qs(CURRENCY), 'q'),
     'upper': (['str'], 'upper(x0)', 's'),
     'lower': (['str'], 'lower(x0)', 's'),
     'length': (['str'], 'length(x0)', 'i'),
@@ -175,6 +214,20 @@ FORMS = {
 }
 
 
+# forms evaluated on the connection whose ledger options name the root types c[0..4]
+TYPED = {'account_sortkey_t', 'possign_t', 'possign_tk', 'possign_amt', 'possign_pos', 'possign_inv'}
+OPTION_NAMES = ('name_assets', 'name_liabilities', 'name_equity', 'name_income', 'name_expenses')
+TYPE_TABLES = [['Assets', 'Liabilities', 'Equity', 'Income', 'Expenses'],
+               ['Actif', 'Passif', 'Capital', 'Revenus', 'Depenses'],
+               ['Assets', 'Liabilities', 'Equity', 'Revenue', 'Costs'],
+               ['Cash', 'Liabilities', 'Equity', 'Income', 'Expenses'],
+               ['Income', 'Assets', 'Expenses', 'Liabilities', 'Equity']]
+
+
+def types_of(f, c):
+    return tuple(c[:5]) if f in TYPED else None
+
+
 def form(f, c):
     kinds, text, rt = FORMS[f]
     return (kinds(c) if callable(kinds) else kinds, text(c) if callable(text) else text,
@@ -182,6 +235,8 @@ def form(f, c):
 
 
 def generic_key(f, c):
+    if f in TYPED:        # the type table is part of the case, not of the identity of what fails
+        return ':'.join([f, 'default-types' if list(c[:5]) == TYPE_TABLES[0] else 'renamed-types'])
     return ':'.join([f] + [x for x in c if isinstance(x, str)])
 
 
@@ -198,11 +253,16 @@ def parsed(text):
     return _PARSED[text]
 
 
-def make_conn():
-    """a connection with the default Beancount account types (possign / account_sortkey read them)"""
+def make_conn(types=None):
+    """a connection to an (empty) Beancount ledger: with the default options, or with the options that name the
+    five root account types `types` (possign / account_sortkey read the account types of their connection)"""
     import beanquery
     from beancount.parser import options
-    return beanquery.connect('beancount:', entries=[], errors=[], options=options.OPTIONS_DEFAULTS)
+    opts = options.OPTIONS_DEFAULTS
+    if types is not None:
+        opts = dict(opts)
+        opts.update(zip(OPTION_NAMES, types))
+    return beanquery.connect('beancount:', entries=[], errors=[], options=opts)
 
 
 def _run(conn, stmt, cols, cells):
@@ -222,12 +282,14 @@ def _run(conn, stmt, cols, cells):
     return [proj(r[0]) for r in rows]
 
 
-def evaluate(conn, f, c, vrows):
-    """evaluate form f with constants c on every tuple of column arguments; returns tagged observations"""
+def evaluate(f, c, vrows):
+    """evaluate form f with constants c on every tuple of column arguments; returns tagged observations.  The
+    connections of one process (one per type table) stay open side by side and are used in turn"""
+    conn = _conn(types_of(f, c))
     kinds, text, _ = form(f, c)
     dec = [DECODE[k] for k in kinds]
     cells = [tuple(d(x) for d, x in zip(dec, v)) for v in vrows]
-    cols = [('x%d' % i, DTYPE[k]) for i, k in enumerate(kinds)]
+    cols = [('x%d' % i, dtype_of(k)) for i, k in enumerate(kinds)]
     stmt = parsed('SELECT %s AS r FROM #cases' % text)
     return _run(conn, stmt, cols, cells)
 
@@ -520,7 +582,37 @@ def account_jobs(ctx):
             ('leaf', [], [[a] for a in names + extra]),
             ('account_sortkey', [], [[a] for a in names + extra]),
             ('possign', [], [[list(_frac(k, 4)), a] for a in names + extra[2:] for k in (-6, -1, 0, 3, 8)])]
-    return jobs
+    return jobs + typed_account_jobs(ctx, names, extra)
+
+
+def typed_account_jobs(ctx, names, extra):
+    """account_sortkey / possign (all four overloads, account from a column or a literal) on connections to ledgers
+    whose options rename the five root types: the fixed tables of the generator plus seeded random ones (any five
+    distinct names, the English ones included at other positions).  The jobs of the tables alternate, so that the
+    connections are used in turn within one process."""
+    rng = ctx.rng
+    pool = sorted({n for t in TYPE_TABLES for n in t} | {'Aktiva', 'Passiva', 'Eigenkapital', 'X1', 'Bb', 'A'})
+    tables = [list(t) for t in TYPE_TABLES] + [rng.sample(pool, 5) for _ in range(ctx.pick(3, 10))]
+    subs = ['A', 'Bb', 'C1']
+    paths = level = [[]]
+    for _ in range(ctx.pick(2, 4)):
+        level = [p + [s] for p in level for s in subs]
+        paths = paths + level
+    english = [a for a in names if a.count(':') <= 1]
+    amounts = [list(_frac(k, 4)) for k in (-6, -1, 0, 3, 8)]
+    per_table = []
+    for t in tables:
+        accts = [':'.join([r] + p) for r in t for p in paths] + english + extra[2:]
+        jobs = [('account_sortkey_t', t, [[a] for a in accts + extra[:2]])]
+        for f in ('possign_t', 'possign_amt', 'possign_pos', 'possign_inv'):
+            jobs.append((f, t, [[x, a] for a in accts for x in amounts]))
+        for a in [r + ':A:Bb' for r in t] + ['Assets:A', 'Expenses', rng.choice(accts)]:
+            jobs.append(('possign_tk', t + [a], [[x] for x in amounts]))
+        per_table.append(jobs)
+    out = []
+    for i in range(max(len(j) for j in per_table)):
+        out += [j[i] for j in per_table if i < len(j)]
+    return out
 
 
 def _frac(n, d):
@@ -642,25 +734,23 @@ def numeric_jobs(ctx):
 # legs
 # ---------------------------------------------------------------------------------------------------------
 _GROUPS = []        # C2S job groups, filled before the worker processes are forked (inherited, not pickled)
-_CONN = None
+_CONNS = {}
 
 
-def _conn():
-    global _CONN
-    if _CONN is None:
-        _CONN = make_conn()
-    return _CONN
+def _conn(types=None):
+    if types not in _CONNS:
+        _CONNS[types] = make_conn(types)
+    return _CONNS[types]
 
 
 def record(jobs, path, chunk):
     """evaluate every job through BQL and write the trace file; returns the writer (closed) and a few samples"""
-    conn = _conn()
     w = TraceWriter(path, chunk)
     samples = []
     for f, c, vrows in jobs:
         if not vrows:
             continue
-        obs = evaluate(conn, f, c, vrows)
+        obs = evaluate(f, c, vrows)
         w.add(f, c, vrows, obs)
         if f in ('date_trunc', 'substr', 'root', 'round', 'date_bin', 'cast') and not any(x['f'] == f for x in samples):
             samples.append({'leg': 'C2S', 'f': f, 'c': c, 'bql': 'SELECT %s FROM #cases' % form(f, c)[1],
@@ -677,7 +767,7 @@ def _record_group(args):
 
 def _eval_task(args):
     f, c, vrows = args
-    return evaluate(_conn(), f, c, vrows)
+    return evaluate(f, c, vrows)
 
 
 def split_jobs(jobs, maxcells):
@@ -736,7 +826,8 @@ def run(ctx):
                 'with ScalarLib!Apply; cells are distinct by construction; non-trivial = inside the stated domain '
                 '(out-of-domain cells are counted in skipped_out_of_domain)')
     ctx.assumptions += [
-        'default Beancount account type names; Python 3.12 textwrap / re / decimal (28 digits) semantics',
+        'account types: the default names and ledgers whose options rename the five roots (fixed and seeded random '
+        'tables of five distinct names); Python 3.12 textwrap / re / decimal (28 digits) semantics',
         'date_bin judged for positive strides of one kind (days, or months/years with an origin day <= 28)',
         'regex functions judged for literal patterns with optional ^ / $ and at most one group',
         'root(a, n) with negative n judged with Python slice semantics (DESIGN.md Appendix B)',
@@ -794,6 +885,7 @@ def _run_legs(ctx, pool, mcpool, want, state):
         mcs.append((mcpool.submit('MC_Calendar', ctx.pick('MC_Calendar_binq.cfg', 'MC_Calendar_bin.cfg'), 'MC', workers=ctx.pick(3, 6)), None))
         mcs.append((mcpool.submit('MC_Strings', ctx.pick('MC_Strings_quick.cfg', 'MC_Strings.cfg'), 'MC', workers=3), None))
         mcs.append((mcpool.submit('MC_Accounts', 'MC_Accounts.cfg', 'MC', workers=3), None))
+        mcs.append((mcpool.submit('MC_Accounts', 'MC_Accounts_default_types.cfg', 'MC-nonvacuity', workers=1), 'MechInv'))
         mcs.append((mcpool.submit('MC_Numeric', 'MC_Numeric.cfg', 'MC', workers=2), None))
         if not q:
             mcs.append((mcpool.submit('MC_Numeric', 'MC_Numeric8.cfg', 'MC', workers=4), None))
@@ -853,8 +945,7 @@ def replay(ctx, rep):
     if 'f' not in case:
         print('replay: case kind not replayable standalone; re-run the check')
         return 2
-    conn = make_conn()
-    obs = evaluate(conn, case['f'], case['c'], [case['v']])
+    obs = evaluate(case['f'], case['c'], [case['v']])
     path = ctx.path('replay.ndjson')
     w = TraceWriter(path, 10)
     w.add(case['f'], case['c'], [case['v']], obs)
